@@ -1,6 +1,510 @@
 import RzmqModel.Model.Engine
 import RzmqModel.Proofs.Wire
-/-! Helper lemmas for the engine model. -/
+/-! Helper lemmas for the engine model (C06: security cannot be bypassed or downgraded).
+
+Structure:
+* `run_inv` / `onNetworkBytes_inv` / `feedAll_inv`: generic lifting of a (state, emitted app actions) invariant
+  from `step` to `feedAll`;
+* `Tr`: a field-level characterisation of every possible `step` (`step_tr`);
+* `Inv`: the security invariant, `Inv.init`, `Inv.step`, `feedAll_Inv`.
+-/
 namespace Rzmq
+
+@[simp] theorem Out.app_append (a b : Out) : (a ++ b).app = a.app ++ b.app := rfl
+@[simp] theorem Out.app_empty : ({} : Out).app = [] := rfl
+
+-- ---------------------------------------------------------------------------------------------
+-- generic lifting
+-- ---------------------------------------------------------------------------------------------
+
+section Lift
+variable {spec : AbsSpec} {cfg : Cfg} {P : Eng → List AppAct → Prop}
+
+theorem run_inv
+    (hstep : ∀ t s e s' o, P s e → step spec cfg t s = some (s', o) → P s' (e ++ o.app))
+    (t fuel : Nat) :
+    ∀ s e, P s e → P (run spec cfg t fuel s).1 (e ++ (run spec cfg t fuel s).2.app) := by
+  induction fuel with
+  | zero => intro s e h; simpa [run] using h
+  | succ n ih =>
+    intro s e h
+    unfold run
+    split
+    · simpa using h
+    · rename_i s' o hs
+      have := ih s' _ (hstep t s e s' o h hs)
+      simpa [List.append_assoc] using this
+
+theorem onNetworkBytes_inv
+    (hacc : ∀ s e d, P s e → P { s with acc := s.acc ++ d } e)
+    (hstep : ∀ t s e s' o, P s e → step spec cfg t s = some (s', o) → P s' (e ++ o.app))
+    (t : Nat) (s : Eng) (e : List AppAct) (d : Bytes) (h : P s e) :
+    P (onNetworkBytes spec cfg t s d).1 (e ++ (onNetworkBytes spec cfg t s d).2.app) := by
+  unfold onNetworkBytes
+  exact run_inv hstep t _ _ _ (hacc s e d h)
+
+theorem feedAll_inv
+    (hacc : ∀ s e d, P s e → P { s with acc := s.acc ++ d } e)
+    (hstep : ∀ t s e s' o, P s e → step spec cfg t s = some (s', o) → P s' (e ++ o.app))
+    (reads : List (Nat × Bytes)) :
+    ∀ s e, P s e → P (feedAll spec cfg s reads).1 (e ++ (feedAll spec cfg s reads).2.app) := by
+  induction reads with
+  | nil => intro s e h; simpa [feedAll] using h
+  | cons r rest ih =>
+    intro s e h
+    obtain ⟨t, d⟩ := r
+    unfold feedAll
+    have h1 := onNetworkBytes_inv hacc hstep t s e d h
+    have h2 := ih _ _ h1
+    simpa [List.append_assoc] using h2
+
+end Lift
+
+-- ---------------------------------------------------------------------------------------------
+-- field-level characterisation of `step`
+-- ---------------------------------------------------------------------------------------------
+
+/-- Every `step` is one of these transitions (only the fields relevant for security are tracked). -/
+inductive Tr (spec : AbsSpec) (cfg : Cfg) (s s' : Eng) (app : List AppAct) : Prop
+  | closed (e : ErrClass) (hp : s'.phase = .closed) (hn : s'.gNegotiated = s.gNegotiated)
+      (ht : s'.gTokens = s.gTokens)
+      (hv : s'.version = s.version ∨ (s'.version = some .v2 ∧ v2Refused cfg = false))
+      (ha : app = [.peerError e])
+  | greet (h0 : s.phase = .greeting) (hp : s'.phase = .greeting) (hn : s'.gNegotiated = s.gNegotiated)
+      (ht : s'.gTokens = s.gTokens) (hv : s'.version = s.version ∨ s'.version = some .v3) (ha : app = [])
+  | toV2 (h0 : s.phase = .greeting) (hr : v2Refused cfg = false) (hp : s'.phase = .v2Identity)
+      (hv : s'.version = some .v2) (hn : s'.gNegotiated = s.gNegotiated) (ht : s'.gTokens = s.gTokens)
+      (ha : app = [])
+  | negSec (g : Greeting) (m : Mech) (h0 : s.phase = .greeting) (hneg : negotiate spec cfg g = .ok m)
+      (hst : mechStatus spec cfg m ≠ .ready) (hp : s'.phase = .security) (hm : s'.mech = m)
+      (hn : s'.gNegotiated = some (mechKindOf m)) (ht : s'.gTokens = s.gTokens)
+      (hv : s'.version = s.version) (ha : app = [])
+  | negReady (g : Greeting) (m : Mech) (h0 : s.phase = .greeting) (hneg : negotiate spec cfg g = .ok m)
+      (hst : mechStatus spec cfg m = .ready) (hp : s'.phase = .ready)
+      (hn : s'.gNegotiated = some (mechKindOf m)) (ht : s'.gTokens = s.gTokens)
+      (hv : s'.version = s.version) (ha : app = [])
+  | produce (t : Bytes) (m' : Mech) (h0 : s.phase = .security)
+      (hpr : produceToken spec cfg s.mech = (some t, m')) (hp : s'.phase = .security) (hm : s'.mech = m')
+      (hn : s'.gNegotiated = s.gNegotiated) (ht : s'.gTokens = s.gTokens)
+      (hv : s'.version = s.version) (ha : app = [])
+  | secReady (h0 : s.phase = .security) (hst : mechStatus spec cfg s.mech = .ready) (hp : s'.phase = .ready)
+      (hn : s'.gNegotiated = s.gNegotiated) (ht : s'.gTokens = s.gTokens)
+      (hv : s'.version = s.version) (ha : app = [])
+  | consume (tok : Bytes) (m' : Mech) (h0 : s.phase = .security)
+      (hpt : processToken spec cfg s.mech tok = .ok m') (hp : s'.phase = .security) (hm : s'.mech = m')
+      (hn : s'.gNegotiated = s.gNegotiated) (ht : s'.gTokens = s.gTokens ++ [tok])
+      (hv : s'.version = s.version) (ha : app = [])
+  | readyDone (i st : Option Bytes) (h0 : s.phase = .ready) (hp : s'.phase = .data)
+      (hn : s'.gNegotiated = s.gNegotiated) (ht : s'.gTokens = s.gTokens)
+      (hv : s'.version = s.version) (ha : app = [.handshakeComplete i st])
+  | v2Stay (h0 : s.phase = .v2Identity) (hp : s'.phase = .v2Identity)
+      (hn : s'.gNegotiated = s.gNegotiated) (ht : s'.gTokens = s.gTokens)
+      (hv : s'.version = s.version) (ha : app = [])
+  | v2Done (i st : Option Bytes) (h0 : s.phase = .v2Identity) (hp : s'.phase = .data)
+      (hn : s'.gNegotiated = s.gNegotiated) (ht : s'.gTokens = s.gTokens)
+      (hv : s'.version = s.version) (ha : app = [.handshakeComplete i st])
+  | dataQuiet (h0 : s.phase = .data) (hp : s'.phase = .data)
+      (hn : s'.gNegotiated = s.gNegotiated) (ht : s'.gTokens = s.gTokens)
+      (hv : s'.version = s.version) (ha : app = [])
+  | dataDeliver (m : Message) (h0 : s.phase = .data) (hp : s'.phase = .data)
+      (hn : s'.gNegotiated = s.gNegotiated) (ht : s'.gTokens = s.gTokens)
+      (hv : s'.version = s.version) (ha : app = [.deliver m])
+
+theorem step_tr {spec : AbsSpec} {cfg : Cfg} {t : Nat} {s s' : Eng} {o : Out}
+    (h : step spec cfg t s = some (s', o)) : Tr spec cfg s s' o.app := by
+  unfold step at h
+  repeat' (first | cases h | split at h | dsimp only at h)
+  all_goals first
+    | exact Tr.closed _ rfl rfl rfl (Or.inl rfl) rfl
+    | exact Tr.closed _ rfl rfl rfl (Or.inr ⟨rfl, by simp_all⟩) rfl
+    | exact Tr.greet ‹_› ‹_› rfl rfl (Or.inl rfl) rfl
+    | exact Tr.greet ‹_› ‹_› rfl rfl (Or.inr rfl) rfl
+    | exact Tr.toV2 ‹_› (by simp_all) rfl rfl rfl rfl rfl
+    | exact Tr.negSec _ _ ‹_› ‹_› (by simp_all) rfl rfl rfl rfl rfl rfl
+    | exact Tr.negReady _ _ ‹_› ‹_› (by simp_all) rfl rfl rfl rfl rfl
+    | exact Tr.produce _ _ ‹_› ‹_› ‹_› rfl rfl rfl rfl rfl
+    | exact Tr.secReady ‹_› (by simp_all) rfl rfl rfl rfl rfl
+    | exact Tr.consume _ _ ‹_› ‹_› ‹_› rfl rfl rfl rfl rfl
+    | exact Tr.readyDone _ _ ‹_› rfl rfl rfl rfl rfl
+    | exact Tr.v2Stay ‹_› ‹_› rfl rfl rfl rfl
+    | exact Tr.v2Done _ _ ‹_› rfl rfl rfl rfl rfl
+    | exact Tr.dataQuiet ‹_› ‹_› rfl rfl rfl rfl
+    | exact Tr.dataDeliver _ ‹_› ‹_› rfl rfl rfl rfl
+
+-- ---------------------------------------------------------------------------------------------
+-- mechanism-level facts
+-- ---------------------------------------------------------------------------------------------
+
+theorem negotiate_sound' {spec : AbsSpec} {cfg : Cfg} {g : Greeting} {m : Mech}
+    (h : negotiate spec cfg g = .ok m) :
+    mechEnabled cfg (mechKindOf m) = true ∧ mechNameBytes (mechKindOf m) = g.mechanism := by
+  unfold negotiate at h
+  split at h
+  · cases h
+  · rename_i k hk
+    have hname := List.find?_some hk
+    simp only [beq_iff_eq] at hname
+    split at h
+    · cases h
+    · rename_i hen
+      have hen : mechEnabled cfg k = true := by simpa using hen
+      split at h
+      · cases h; exact ⟨hen, hname⟩
+      · cases h; exact ⟨hen, hname⟩
+      · split at h
+        · cases h; exact ⟨hen, hname⟩
+        · cases h
+
+/-- a well-formed PLAIN HELLO carrying exactly the configured credentials (same as `C06.IsValidHello`) -/
+def ValidHello (cfg : Cfg) (tok : Bytes) : Prop :=
+  ∃ body u p, tok = lenPrefixed Gen.plainHello ++ body ∧ parseHello body = some (u, p)
+    ∧ cfg.plainUser = some u ∧ cfg.plainPass = some p
+
+def IsWelcome (tok : Bytes) : Prop := ∃ body, tok = lenPrefixed Gen.plainWelcome ++ body
+
+/-- what a completed handshake of mechanism `k` guarantees about the accepted tokens -/
+def Final (spec : AbsSpec) (cfg : Cfg) (k : MechKind) (toks : List Bytes) : Prop :=
+  match k with
+  | .null => True
+  | .plain => if cfg.isServer = true then ∃ tok ∈ toks, ValidHello cfg tok else ∃ tok ∈ toks, IsWelcome tok
+  | .curve => ∃ n, spec.status .curve cfg.isServer toks n = .ready
+  | .noise => ∃ n, spec.status .noise cfg.isServer toks n = .ready
+
+/-- the relation between the mechanism state and the accepted tokens during the security phase -/
+def MechTok (cfg : Cfg) (m : Mech) (toks : List Bytes) : Prop :=
+  match m with
+  | .null => True
+  | .plain st =>
+    if cfg.isServer = true then
+      st = .serverExpectHello ∨ ((st = .serverSendWelcome ∨ st = .ready) ∧ ∃ tok ∈ toks, ValidHello cfg tok)
+    else
+      st = .clientSendHello ∨ st = .clientExpectWelcome ∨ (st = .ready ∧ ∃ tok ∈ toks, IsWelcome tok)
+  | .abs k h _ => h = toks ∧ (k = .curve ∨ k = .noise)
+
+theorem lenPrefixed_of_take {cl : UInt8} {rest name : Bytes} (hl : ¬ rest.length < cl.toNat)
+    (hn : rest.take cl.toNat = name) : cl :: rest = lenPrefixed name ++ rest.drop cl.toNat := by
+  have hlen : name.length = cl.toNat := by rw [← hn, List.length_take]; omega
+  unfold lenPrefixed
+  rw [hlen, UInt8.ofNat_toNat, ← hn]
+  simp [List.take_append_drop]
+
+theorem negotiate_mechTok {spec : AbsSpec} {cfg : Cfg} {g : Greeting} {m : Mech}
+    (h : negotiate spec cfg g = .ok m) : MechTok cfg m [] := by
+  unfold negotiate at h
+  split at h
+  · cases h
+  · rename_i k hk
+    split at h
+    · cases h
+    · split at h
+      · cases h; trivial
+      · cases h
+        unfold MechTok
+        cases cfg.isServer <;> simp
+      · rename_i hnull hplain
+        split at h
+        · cases h
+          refine ⟨rfl, ?_⟩
+          cases k <;> simp_all
+        · cases h
+
+theorem mechTok_final {spec : AbsSpec} {cfg : Cfg} {m : Mech} {toks : List Bytes}
+    (hm : MechTok cfg m toks) (hst : mechStatus spec cfg m = .ready) :
+    Final spec cfg (mechKindOf m) toks := by
+  cases m with
+  | null => trivial
+  | plain st =>
+    simp only [mechKindOf, Final]
+    simp only [MechTok] at hm
+    cases st <;> simp [mechStatus] at hst
+    split
+    · rename_i hsrv; simpa [hsrv] using hm
+    · rename_i hsrv; simpa [hsrv] using hm
+  | abs k h n =>
+    obtain ⟨rfl, hk⟩ := hm
+    simp only [mechStatus] at hst
+    rcases hk with rfl | rfl
+    · exact ⟨n, hst⟩
+    · exact ⟨n, hst⟩
+
+theorem produce_mechTok {spec : AbsSpec} {cfg : Cfg} {m m' : Mech} {toks : List Bytes} {t : Bytes}
+    (hm : MechTok cfg m toks) (hp : produceToken spec cfg m = (some t, m')) :
+    MechTok cfg m' toks ∧ mechKindOf m' = mechKindOf m := by
+  cases m with
+  | null => simp [produceToken] at hp
+  | plain st =>
+    cases st <;> simp [produceToken] at hp
+    · obtain ⟨_, rfl⟩ := hp
+      refine ⟨?_, rfl⟩
+      simp only [MechTok] at hm ⊢
+      split
+      · rename_i hsrv; simp [hsrv] at hm
+      · simp
+    · obtain ⟨_, rfl⟩ := hp
+      refine ⟨?_, rfl⟩
+      simp only [MechTok] at hm ⊢
+      split
+      · rename_i hsrv; simpa [hsrv] using hm
+      · rename_i hsrv; simp [hsrv] at hm
+  | abs k h n =>
+    simp only [produceToken] at hp
+    split at hp
+    · cases hp; exact ⟨hm, rfl⟩
+    · cases hp
+
+theorem process_mechTok {spec : AbsSpec} {cfg : Cfg} {m m' : Mech} {toks : List Bytes} {tok : Bytes}
+    (hm : MechTok cfg m toks) (hp : processToken spec cfg m tok = .ok m') :
+    MechTok cfg m' (toks ++ [tok]) ∧ mechKindOf m' = mechKindOf m := by
+  cases m with
+  | null => simp only [processToken] at hp; cases hp; exact ⟨trivial, rfl⟩
+  | plain st =>
+    simp only [processToken] at hp
+    split at hp
+    · cases hp
+    · rename_i cl rest
+      split at hp
+      · cases hp
+      · rename_i hlen
+        split at hp
+        · rename_i hsrv
+          split at hp
+          · split at hp
+            · rename_i hname
+              simp only [beq_iff_eq] at hname
+              split at hp
+              · cases hp
+              · rename_i u p hparse
+                split at hp
+                · rename_i hcred
+                  cases hp
+                  refine ⟨?_, rfl⟩
+                  simp only [MechTok, hsrv, if_true]
+                  right
+                  refine ⟨Or.inl trivial, cl :: rest, by simp, rest.drop cl.toNat, u, p, ?_, hparse, ?_, ?_⟩
+                  · exact lenPrefixed_of_take hlen hname
+                  · simp only [Bool.and_eq_true, beq_iff_eq] at hcred; exact hcred.1
+                  · simp only [Bool.and_eq_true, beq_iff_eq] at hcred; exact hcred.2
+                · cases hp
+            · cases hp
+          · cases hp
+        · rename_i hsrv
+          split at hp
+          · split at hp
+            · rename_i hname
+              simp only [beq_iff_eq] at hname
+              cases hp
+              refine ⟨?_, rfl⟩
+              simp only [MechTok, hsrv]
+              simp only [Bool.false_eq_true, if_false]
+              right; right
+              exact ⟨trivial, cl :: rest, by simp, rest.drop cl.toNat, lenPrefixed_of_take hlen hname⟩
+            · split at hp <;> cases hp
+          · cases hp
+  | abs k h n =>
+    simp only [processToken] at hp
+    split at hp
+    · cases hp
+      obtain ⟨rfl, hk⟩ := hm
+      exact ⟨⟨rfl, hk⟩, rfl⟩
+    · cases hp
+
+-- ---------------------------------------------------------------------------------------------
+-- the security invariant
+-- ---------------------------------------------------------------------------------------------
+
+/-- a `HandshakeComplete` has been emitted -/
+def HC (e : List AppAct) : Prop := ∃ a ∈ e, isHandshakeComplete a = true
+
+theorem HC_snoc {e : List AppAct} {a : AppAct} : HC (e ++ [a]) ↔ HC e ∨ isHandshakeComplete a = true := by
+  unfold HC
+  constructor
+  · rintro ⟨b, hb, hc⟩
+    rcases List.mem_append.1 hb with hb | hb
+    · exact Or.inl ⟨b, hb, hc⟩
+    · rw [List.mem_singleton] at hb; subst hb; exact Or.inr hc
+  · rintro (⟨b, hb, hc⟩ | hc)
+    · exact ⟨b, List.mem_append_left _ hb, hc⟩
+    · exact ⟨a, by simp, hc⟩
+
+theorem split_snoc {α : Type} {e pre post : List α} {x d : α} (h : e ++ [x] = pre ++ d :: post) :
+    (post = [] ∧ e = pre ∧ x = d) ∨ ∃ post', e = pre ++ d :: post' := by
+  rcases List.eq_nil_or_concat post with rfl | ⟨post', y, rfl⟩
+  · left
+    have := List.append_inj' h rfl
+    simp_all
+  · right
+    refine ⟨post', ?_⟩
+    have h' : e ++ [x] = (pre ++ d :: post') ++ [y] := by simpa using h
+    exact (List.append_inj' h' rfl).1
+
+theorem deliver_snoc {e : List AppAct} {x : AppAct}
+    (hd : ∀ pre m post, e = pre ++ AppAct.deliver m :: post → HC pre)
+    (hx : isDeliver x = true → HC e) :
+    ∀ pre m post, e ++ [x] = pre ++ AppAct.deliver m :: post → HC pre := by
+  intro pre m post h
+  rcases split_snoc h with ⟨_, rfl, rfl⟩ | ⟨post', rfl⟩
+  · exact hx rfl
+  · exact hd _ _ _ rfl
+
+def Done (spec : AbsSpec) (cfg : Cfg) (s : Eng) : Prop :=
+  ∃ k, s.gNegotiated = some k ∧ mechEnabled cfg k = true ∧ Final spec cfg k s.gTokens
+
+theorem Done.congr {spec : AbsSpec} {cfg : Cfg} {s s' : Eng} (hn : s'.gNegotiated = s.gNegotiated)
+    (ht : s'.gTokens = s.gTokens) (h : Done spec cfg s) : Done spec cfg s' := by
+  unfold Done at *; rw [hn, ht]; exact h
+
+structure Inv (spec : AbsSpec) (cfg : Cfg) (s : Eng) (e : List AppAct) : Prop where
+  data_hc : s.phase = .data → HC e
+  nohc : HC e → s.phase = .data ∨ s.phase = .closed
+  deliver : ∀ pre m post, e = pre ++ AppAct.deliver m :: post → HC pre
+  v2ref : s.version = some .v2 → v2Refused cfg = false
+  v2id : s.phase = .v2Identity → s.version = some .v2
+  greet : s.phase = .greeting → s.gTokens = []
+  sec : s.phase = .security → s.gNegotiated = some (mechKindOf s.mech)
+          ∧ mechEnabled cfg (mechKindOf s.mech) = true ∧ MechTok cfg s.mech s.gTokens
+  ready : s.phase = .ready → Done spec cfg s
+  hc : HC e → s.version = some .v2 ∨ Done spec cfg s
+
+theorem Inv.init (spec : AbsSpec) (cfg : Cfg) : Inv spec cfg Eng.init [] := by
+  have hno : ¬ HC [] := by simp [HC]
+  refine ⟨?_, ?_, ?_, ?_, ?_, ?_, ?_, ?_, ?_⟩
+  · intro h; cases h
+  · intro h; exact absurd h hno
+  · intro pre m post h; simp at h
+  · intro h; cases h
+  · intro h; cases h
+  · intro _; rfl
+  · intro h; cases h
+  · intro h; cases h
+  · intro h; exact absurd h hno
+
+theorem Inv.acc {spec : AbsSpec} {cfg : Cfg} {s : Eng} {e : List AppAct} (d : Bytes)
+    (h : Inv spec cfg s e) : Inv spec cfg { s with acc := s.acc ++ d } e :=
+  ⟨h.data_hc, h.nohc, h.deliver, h.v2ref, h.v2id, h.greet, h.sec, h.ready, h.hc⟩
+
+local macro "ph " h:ident : tactic => `(tactic| (intro hph; rw [$h:ident] at hph; cases hph))
+
+theorem Inv.tr {spec : AbsSpec} {cfg : Cfg} {s s' : Eng} {e a : List AppAct}
+    (hi : Inv spec cfg s e) (htr : Tr spec cfg s s' a) : Inv spec cfg s' (e ++ a) := by
+  have nope : ∀ {p : Phase}, s.phase = p → p ≠ .data → p ≠ .closed → ¬ HC e := by
+    intro p h0 h1 h2 h
+    rcases hi.nohc h with h | h <;> rw [h0] at h
+    · exact h1 h
+    · exact h2 h
+  have tx : s'.gNegotiated = s.gNegotiated → s'.gTokens = s.gTokens → s'.version = s.version →
+      (s.version = some .v2 ∨ Done spec cfg s) → (s'.version = some .v2 ∨ Done spec cfg s') := by
+    intro hn ht hv h
+    rcases h with h | h
+    · left; rw [hv]; exact h
+    · right; exact Done.congr hn ht h
+  cases htr with
+  | closed e0 hp hn ht hv ha =>
+    subst ha
+    have hce : HC (e ++ [AppAct.peerError e0]) → HC e := fun h =>
+      (HC_snoc.1 h).resolve_right (by simp [isHandshakeComplete])
+    refine ⟨by ph hp, fun _ => Or.inr hp, deliver_snoc hi.deliver (by simp [isDeliver]), ?_, by ph hp, by ph hp,
+      by ph hp, by ph hp, ?_⟩
+    · intro h
+      rcases hv with hv | ⟨_, hr⟩
+      · exact hi.v2ref (hv ▸ h)
+      · exact hr
+    · intro h
+      rcases hi.hc (hce h) with h2 | hd
+      · rcases hv with hv | ⟨hv, _⟩
+        · left; rw [hv]; exact h2
+        · left; exact hv
+      · right; exact Done.congr hn ht hd
+  | greet h0 hp hn ht hv ha =>
+    subst ha; rw [List.append_nil]
+    have hno := nope h0 (by decide) (by decide)
+    refine ⟨by ph hp, fun h => absurd h hno, hi.deliver, ?_, by ph hp, fun _ => ht.trans (hi.greet h0),
+      by ph hp, by ph hp, fun h => absurd h hno⟩
+    intro h
+    rcases hv with hv | hv
+    · exact hi.v2ref (hv ▸ h)
+    · rw [hv] at h; cases h
+  | toV2 h0 hr hp hv hn ht ha =>
+    subst ha; rw [List.append_nil]
+    have hno := nope h0 (by decide) (by decide)
+    exact ⟨by ph hp, fun h => absurd h hno, hi.deliver, fun _ => hr, fun _ => hv, by ph hp,
+      by ph hp, by ph hp, fun h => absurd h hno⟩
+  | negSec g m h0 hneg hst hp hm hn ht hv ha =>
+    subst ha; rw [List.append_nil]
+    have hno := nope h0 (by decide) (by decide)
+    refine ⟨by ph hp, fun h => absurd h hno, hi.deliver, fun h => hi.v2ref (hv ▸ h), by ph hp, by ph hp,
+      ?_, by ph hp, fun h => absurd h hno⟩
+    intro _
+    rw [hm, hn, ht, hi.greet h0]
+    exact ⟨rfl, (negotiate_sound' hneg).1, negotiate_mechTok hneg⟩
+  | negReady g m h0 hneg hst hp hn ht hv ha =>
+    subst ha; rw [List.append_nil]
+    have hno := nope h0 (by decide) (by decide)
+    refine ⟨by ph hp, fun h => absurd h hno, hi.deliver, fun h => hi.v2ref (hv ▸ h), by ph hp, by ph hp,
+      by ph hp, ?_, fun h => absurd h hno⟩
+    intro _
+    refine ⟨mechKindOf m, hn, (negotiate_sound' hneg).1, ?_⟩
+    rw [ht, hi.greet h0]
+    exact mechTok_final (negotiate_mechTok hneg) hst
+  | produce t m' h0 hpr hp hm hn ht hv ha =>
+    subst ha; rw [List.append_nil]
+    have hno := nope h0 (by decide) (by decide)
+    refine ⟨by ph hp, fun h => absurd h hno, hi.deliver, fun h => hi.v2ref (hv ▸ h), by ph hp, by ph hp,
+      ?_, by ph hp, fun h => absurd h hno⟩
+    intro _
+    obtain ⟨h1, h2, h3⟩ := hi.sec h0
+    obtain ⟨h4, h5⟩ := produce_mechTok h3 hpr
+    rw [hm, hn, ht, h5]
+    exact ⟨h1, h2, h4⟩
+  | secReady h0 hst hp hn ht hv ha =>
+    subst ha; rw [List.append_nil]
+    have hno := nope h0 (by decide) (by decide)
+    refine ⟨by ph hp, fun h => absurd h hno, hi.deliver, fun h => hi.v2ref (hv ▸ h), by ph hp, by ph hp,
+      by ph hp, ?_, fun h => absurd h hno⟩
+    intro _
+    obtain ⟨h1, h2, h3⟩ := hi.sec h0
+    refine ⟨_, hn.trans h1, h2, ?_⟩
+    rw [ht]
+    exact mechTok_final h3 hst
+  | consume tok m' h0 hpt hp hm hn ht hv ha =>
+    subst ha; rw [List.append_nil]
+    have hno := nope h0 (by decide) (by decide)
+    refine ⟨by ph hp, fun h => absurd h hno, hi.deliver, fun h => hi.v2ref (hv ▸ h), by ph hp, by ph hp,
+      ?_, by ph hp, fun h => absurd h hno⟩
+    intro _
+    obtain ⟨h1, h2, h3⟩ := hi.sec h0
+    obtain ⟨h4, h5⟩ := process_mechTok (tok := tok) h3 hpt
+    rw [hm, hn, ht, h5]
+    exact ⟨h1, h2, h4⟩
+  | readyDone i st h0 hp hn ht hv ha =>
+    subst ha
+    exact ⟨fun _ => HC_snoc.2 (Or.inr rfl), fun _ => Or.inl hp,
+      deliver_snoc hi.deliver (by simp [isDeliver]), fun h => hi.v2ref (hv ▸ h), by ph hp, by ph hp,
+      by ph hp, by ph hp, fun _ => Or.inr (Done.congr hn ht (hi.ready h0))⟩
+  | v2Stay h0 hp hn ht hv ha =>
+    subst ha; rw [List.append_nil]
+    have hno := nope h0 (by decide) (by decide)
+    exact ⟨by ph hp, fun h => absurd h hno, hi.deliver, fun h => hi.v2ref (hv ▸ h),
+      fun _ => hv.trans (hi.v2id h0), by ph hp, by ph hp, by ph hp, fun h => absurd h hno⟩
+  | v2Done i st h0 hp hn ht hv ha =>
+    subst ha
+    exact ⟨fun _ => HC_snoc.2 (Or.inr rfl), fun _ => Or.inl hp,
+      deliver_snoc hi.deliver (by simp [isDeliver]), fun h => hi.v2ref (hv ▸ h), by ph hp, by ph hp,
+      by ph hp, by ph hp, fun _ => Or.inl (hv.trans (hi.v2id h0))⟩
+  | dataQuiet h0 hp hn ht hv ha =>
+    subst ha; rw [List.append_nil]
+    exact ⟨fun _ => hi.data_hc h0, fun _ => Or.inl hp, hi.deliver, fun h => hi.v2ref (hv ▸ h), by ph hp,
+      by ph hp, by ph hp, by ph hp, fun h => tx hn ht hv (hi.hc h)⟩
+  | dataDeliver m h0 hp hn ht hv ha =>
+    subst ha
+    exact ⟨fun _ => HC_snoc.2 (Or.inl (hi.data_hc h0)), fun _ => Or.inl hp,
+      deliver_snoc hi.deliver (fun _ => hi.data_hc h0), fun h => hi.v2ref (hv ▸ h), by ph hp,
+      by ph hp, by ph hp, by ph hp, fun _ => tx hn ht hv (hi.hc (hi.data_hc h0))⟩
+
+/-- the invariant holds after any sequence of reads -/
+theorem feedAll_Inv (spec : AbsSpec) (cfg : Cfg) (reads : List (Nat × Bytes)) :
+    Inv spec cfg (feedAll spec cfg Eng.init reads).1 (feedAll spec cfg Eng.init reads).2.app := by
+  have := feedAll_inv (P := Inv spec cfg) (spec := spec) (cfg := cfg)
+    (fun s e d h => Inv.acc d h) (fun t s e s' o h hs => Inv.tr h (step_tr hs)) reads Eng.init [] (Inv.init spec cfg)
+  simpa using this
 
 end Rzmq
